@@ -1,5 +1,5 @@
 (* PropC17.v — property C17: printing a stack trace and parsing it back is lossless. *)
-From PG Require Import Base Spec Stacktrace StacktraceRoundtrip.
+From PG Require Import Base Spec Stacktrace StacktraceRoundtrip Iterative.
 
 Theorem C17_frame_roundtrip : forall f, wf_frame f = true -> parse_frame (print_frame f) = Some f.
 Proof. exact C17_frame. Qed.
@@ -15,6 +15,11 @@ Proof. exact C17_reprint. Qed.
 Theorem C17_throwable_condition : forall t,
   lacks 32 (fst t) = true -> edges_ok (print_throwable t) = true -> wf_throwable t = true.
 Proof. exact wf_throwable_edges. Qed.
+
+(* Display for StackTrace as written since fix 5c75dfb (a loop over the cause chain) prints what the
+   recursive model prints *)
+Theorem C17_print_loop : forall t, print_levels (levels t) = print_trace t.
+Proof. exact print_iter_correct. Qed.
 
 Check C17_frame_roundtrip : forall f, wf_frame f = true -> parse_frame (print_frame f) = Some f.
 Check C17_trace_roundtrip : forall t, wf_trace t = true -> parse_trace (print_trace t) = Some t.
